@@ -27,7 +27,7 @@ for _v in ('OMP_NUM_THREADS', 'OPENBLAS_NUM_THREADS', 'MKL_NUM_THREADS'):
     os.environ.setdefault(_v, '2')   # small matrices only: BLAS threading is pure overhead here
 import numpy as np  # noqa: E402
 
-from common import Stream, budget, rng_for, show
+from common import Stream, budget, rng_for, show, InfraError
 
 TOL = 1e-9
 
@@ -37,15 +37,16 @@ TRUSTED = [
 ]
 ASSUMPTIONS = [
     'float comparisons use absolute tolerance 1e-9 and only on inputs whose every branch test |x| <> EQ_TOLERANCE is decided '
-    'identically by the Model for tolerances 1e-5 .. 1e-11 (others are discarded and counted)',
+    'identically by the Model for tolerances 1e-5, 1e-8 and 1e-908 (i.e. every tested entry is exactly zero or >= 1e-5: the '
+    'exact-regime hypothesis of the theorems; other inputs are discarded and counted)',
 ]
 OPEN_STATEMENTS = [
-    'givens_reconstruct / square_reconstruct (V Q U^dagger = (D|0) for all isometries, as a Lean theorem about the numeric '
-    'Model): not proved as a whole; covered by the reconstruction oracle.  Proved instead: the complete schedule '
-    'characterisation (adjacency, disjointness, depth, coverage, order = zero-persistence at the index level), the 2x2 element '
-    'identities, that every elementary column step zeroes its target entry and keeps pairs of zeros (numeric level), and the '
-    'layer structure of everything the three numeric decompositions emit.  Missing for the full theorem: the induction over '
-    'the sweep combining these, and the orthonormality argument for the lower-left part.',
+    'givens_reconstruct / square_reconstruct: PROVED for the numeric Model in the exact regime, up to bookkeeping: for every '
+    'n x n unitary (square_decomposition_diagonalises) and every m x n isometry, m < n (givens_decomposition_diagonalises) '
+    'the matrix obtained by applying the elementary updates is (D | 0) with |D_jj| = 1.  Not formalised: that the recorded '
+    '(i, j, theta, phi) / left_unitary multiply out to U / V as matrix products (each recorded triple reproduces its G: '
+    'givens_matrix_elements_sound), and the case m = n of givens_decomposition (left stage only).  The exact-regime hypothesis '
+    '(SweepExact / LeftExact) is established per input by the harness probe, not proved from the input.',
     'gaussian_reconstruct (V W U^dagger = (0|D)) : not proved; FALSE on the real code when the left N x N block of W is '
     'singular (known finding F11, kernel-checked counterexample on the Model); open for a non-singular left block.',
     'givens_matrix_elements_sound is stated in the exact regime (entries / imaginary parts below EQ_TOLERANCE are exactly 0); '
@@ -397,11 +398,14 @@ def impl_summary(val):
     return conv(val)
 
 
-SCALES = [[1, 1], [1000, 1], [1, 1000]]
+# tolerance x1, x1000 and x10^-900 (the last one only treats exact zeros as zero: nonzero entries of the generated
+# rational matrices are far larger), so identical answers mean: every tested entry is exactly 0 or >= 1000 tol,
+# which is the exact-regime hypothesis (StepExact / SweepExact) of the Lean theorems
+SCALES = [[1, 1], [1000, 1], [1, 10 ** 900]]
 
 
 def model_runs(ctx, reqs):
-    """run every request with the live tolerance and with the tolerance scaled by 1000 and 1/1000;
+    """run every request with the live tolerance and with the tolerance scaled by 1000 and 1e-900;
     -> list of (answer, decided_with_margin)"""
     batch = []
     for r in reqs:
@@ -430,6 +434,15 @@ def check_cases(ctx, stream, cases):
         else:
             reqs.append({'op': 'c11.gauss', 'W': zjson(c['M']), 'p': c['ncols']})
     models = model_runs(ctx, reqs)
+    # executable hypotheses of the Lean reconstruction theorems, evaluated on each input by the driver
+    hyp_idx = [k for k, c in enumerate(cases) if c['fn'] == 'square' or (c['fn'] == 'givens' and len(c['M']) < c['ncols'])]
+    hyp_ans = ctx.driver.run([{'op': 'c11.hypotheses', 'Q': zjson(cases[k]['M']), 'n': cases[k]['ncols'], 'ai': cases[k]['ai']}
+                              for k in hyp_idx])
+    for k, a in zip(hyp_idx, hyp_ans):
+        stream.count('theorem-hypotheses:' + ('verified' if a['probe'] and a['orthonormal'] else
+                                              'not-orthonormal-input' if not a['orthonormal'] else 'outside-exact-regime'))
+        if not a['orthonormal']:
+            raise InfraError('generator error: input rows are not exactly orthonormal (%s)' % cases[k]['kind'])
     spec_batch = []
     for c, (mo, decided) in zip(cases, models):
         Mnp = znp(c['M'], c['ncols'])
